@@ -285,8 +285,8 @@ WITNESSES = [
     {"id": "c18-asyncio-timeout-zero-means-forever", "rule": "R-18.4", "file": "dns/_asyncio_backend.py", "expect": "fires",
      "old": "async def _maybe_wait_for(awaitable, timeout):\n    if timeout is not None:", "new": "async def _maybe_wait_for(awaitable, timeout):\n    if timeout:"},
     {"id": "c18-async-tcp-unchecked", "rule": "R-18.1", "file": "dns/asyncquery.py", "expect": "fires",
-     "old": "        (r, received_time) = await receive_tcp(\n            s, expiration, one_rr_per_rrset, q.keyring, q.mac, ignore_trailing\n        )\n        r.time = received_time - begin_time\n        if not q.is_response(r):\n            raise BadResponse\n        return r",
-     "new": "        (r, received_time) = await receive_tcp(\n            s, expiration, one_rr_per_rrset, q.keyring, q.mac, ignore_trailing\n        )\n        r.time = received_time - begin_time\n        return r"},
+     "old": "            ignore_trailing,\n        )\n        r.time = received_time - begin_time\n        if not q.is_response(r):\n            raise BadResponse\n        return r",
+     "new": "            ignore_trailing,\n        )\n        r.time = received_time - begin_time\n        return r"},
     {"id": "c18-async-udp-continue-on-error", "rule": "R-18.2", "file": "dns/asyncquery.py", "expect": "fires",
      "old": "                raise_on_truncation=raise_on_truncation,\n            )\n        except dns.message.Truncated as e:\n            # See the comment in query.py for details.",
      "new": "                raise_on_truncation=raise_on_truncation,\n                continue_on_error=ignore_errors,\n            )\n        except dns.message.Truncated as e:\n            # See the comment in query.py for details."},
